@@ -20,7 +20,8 @@ package sctp
 //   ar raw <hex> -> rejected | parsed:<chunk summaries joined by &> [err] | PANIC
 //   ar setstate <n>
 //   ar msg <id> <si> <inc> <o|u> <key> <ppi> <len> <hash> / ar abandon <id> / ar drained   (generator ground truth, no result)
-//   ar st -> cum= size= gaps= dups= ack= timer= rwnd= held= ctr= ns= accq= abort= state= now=
+//   ar st -> cum= size= gaps= dups= ack= timer= rwnd= held= ctr= ns= reg= accq= abort= state= now=
+//            (reg= the stream ids registered in a.streams, ascending)
 // <si>:<inc> names a Stream OBJECT: the inc-th object the association created for stream id si.
 // held= lists every Stream object that still holds user bytes, found by WALKING its real reassembly
 // structures: si:inc:bytes:registered — objects already deleted from a.streams included.
@@ -212,9 +213,22 @@ func (h *vAR) state() string {
 	if len(held) > 0 {
 		hs = strings.Join(held, ",")
 	}
-	return fmt.Sprintf("cum=%d size=%d gaps=%s dups=%d ack=%s timer=%s rwnd=%d held=%s ctr=%s ns=%d accq=%d abort=%s state=%d now=%d",
+	regIDs := make([]int, 0, len(a.streams))
+	for id := range a.streams {
+		regIDs = append(regIDs, int(id))
+	}
+	sort.Ints(regIDs)
+	reg := "-"
+	if len(regIDs) > 0 {
+		parts := make([]string, len(regIDs))
+		for i, id := range regIDs {
+			parts[i] = fmt.Sprintf("%d", id)
+		}
+		reg = strings.Join(parts, ",")
+	}
+	return fmt.Sprintf("cum=%d size=%d gaps=%s dups=%d ack=%s timer=%s rwnd=%d held=%s ctr=%s ns=%d reg=%s accq=%d abort=%s state=%d now=%d",
 		q.getcumulativeTSN(), q.size(), vARGaps(q.getGapAckBlocks()), len(q.dupTSN), ack, vb(a.ackTimer.isRunning()),
-		a.getMyReceiverWindowCredit(), hs, ctr, len(a.streams), len(a.acceptCh), vb(a.willSendAbort), a.getState(),
+		a.getMyReceiverWindowCredit(), hs, ctr, len(a.streams), reg, len(a.acceptCh), vb(a.willSendAbort), a.getState(),
 		time.Since(h.t0).Milliseconds())
 }
 
@@ -976,7 +990,16 @@ func vARHonest(h *vAR, r *vrand, nops int, tsn uint32, il bool, pair int) {
 		}
 		return n
 	}
+	afterAbort := 0
 	for i := 0; i < nops; i++ {
+		if h.a.willSendAbort {
+			// the endpoint raised an ABORT (reassembly limit): the write loop would send it and close; at most a
+			// few more packets arrive before that
+			afterAbort++
+			if afterAbort > r.pick(1, 1, 2, 4) {
+				break
+			}
+		}
 		x := r.n(100)
 		switch {
 		case x < 18: // the peer's application writes
@@ -1156,6 +1179,11 @@ func vARHonest(h *vAR, r *vrand, nops int, tsn uint32, il bool, pair int) {
 			l.stat("ar.h.reset")
 		}
 	}
+	if h.a.willSendAbort {
+		l.stat("ar.h.aborted")
+		h.do("ar gather") // the ABORT with its cause, and nothing else
+		return
+	}
 	// drain: everything outstanding is retransmitted in order, abandoned messages are skipped, everything is read
 	pending := true
 	for round := 0; round < 50; round++ {
@@ -1214,7 +1242,14 @@ func vARHostile(h *vAR, r *vrand, nops int, tsn uint32, il bool, pair int) {
 	}
 	reads := r.chance(50)
 	aborted := false
+	afterAbort := 0
 	for i := 0; i < nops && !aborted; i++ {
+		if h.a.willSendAbort {
+			afterAbort++
+			if afterAbort > r.pick(1, 1, 2, 4) {
+				break // the final gather below shows what is emitted: the ABORT with its cause
+			}
+		}
 		q := h.a.payloadQueue
 		cum := q.getcumulativeTSN()
 		tail := q.tailTSN
@@ -1266,6 +1301,42 @@ func vARHostile(h *vAR, r *vrand, nops int, tsn uint32, il bool, pair int) {
 		case x < 60:
 			h.do("ar data %d %d %d 0 BE 51 %d 1 %s", t, si, r.n(30), ln, wrong)
 			l.stat("ar.x.wrongkind")
+		case x < 61 && pr == 1 && r.chance(35):
+			// D23: more than 16 unaccepted streams, then a FORWARD-TSN naming a stream that cannot be created
+			// (the whole chunk must be dropped, streams created before the failing one stay), then accept,
+			// then the FORWARD-TSN again (a retransmission: now it is taken)
+			want := r.pick(16, 16, 15)
+			fresh := 200 + r.n(100)
+			for k := 0; len(h.a.acceptCh) < want && k < 40; k++ {
+				tt := h.a.payloadQueue.tailTSN + 1
+				if h.a.payloadQueue.size() == 0 {
+					tt = h.a.payloadQueue.getcumulativeTSN() + 2
+				}
+				h.do("ar data %d %d %d 0 BE 51 1 %d %s", tt, fresh, r.n(30), r.n(1000), kind)
+				fresh++
+			}
+			c := h.a.payloadQueue.getcumulativeTSN() + 1 + uint32(r.n(3))
+			known := r.pick(1, 2, 3)
+			var es string
+			if il {
+				es = fmt.Sprintf("%d/o/%d,%d/%s/%d,%d/o/%d", known, r.n(30), fresh, r.pickS("o", "u"), r.n(30), fresh+1, r.n(30))
+			} else {
+				es = fmt.Sprintf("%d/%d,%d/%d,%d/%d", known, r.n(30), fresh, r.n(30), fresh+1, r.n(30))
+			}
+			fk := "fwd"
+			if il {
+				fk = "ifwd"
+			}
+			full := len(h.a.acceptCh) >= 15
+			h.do("ar %s %d %s", fk, c, es)
+			if full {
+				l.stat("ar.x.fwd.backlogfull")
+			}
+			for k := r.pick(1, 2, 3); k > 0; k-- {
+				h.do("ar accept")
+			}
+			h.do("ar %s %d %s", fk, c, es)
+			h.do("ar gather")
 		case x < 66: // FORWARD-TSN: behind, at, just ahead, beyond the tail, far away; unknown streams
 			var c uint32
 			switch r.n(6) {
@@ -1377,7 +1448,7 @@ func vARHostile(h *vAR, r *vrand, nops int, tsn uint32, il bool, pair int) {
 			l.stat("ar.x.raw")
 		}
 	}
-	if !aborted && r.chance(80) {
+	if !aborted && !h.a.willSendAbort && r.chance(80) {
 		// the sequence ends with a chunk that must be answered with an ABORT
 		if st := h.a.getState(); !isDataReceiveState(st) {
 			h.do("ar setstate 3")
